@@ -572,16 +572,6 @@ example : timeIoU (1/2) (5/2) (3/2) (7/2) = 1/3 := by decide +kernel
 
 /-! ### time-only pairs in closed form, shapes included -/
 
-/-- the time extent of a geometry that `_prepare_geometry` leaves alone or buffers in closed form -/
-def closedExtent (g : Geom) (tb : Rat) : Option (Rat × Rat) :=
-  match g with
-  | .timeStamp t => some (max (t - tb) 0, t + tb)
-  | .timeInterval s e => some (s, e)
-  | .boundingBox s _ e _ => some (s, e)
-  | .polygon r => (Geom.polygon r).bounds.map (fun b => (b.st, b.en))
-  | .multiPolygon r => (Geom.multiPolygon r).bounds.map (fun b => (b.st, b.en))
-  | _ => none
-
 /-- **Time-only, closed form.**  If either geometry is a TimeStamp / TimeInterval and neither is a
     point- or line-like geometry (whose polygonal buffer GEOS computes), the affinity is the time IoU of
     extents read off the coordinates: `[max(t - tb, 0), t + tb]` for a time stamp, `[start, end]` for an
